@@ -43,6 +43,9 @@ CLAIMS["C09"] = ("stateless model checking of the real code under a virtual cloc
 CLAIMS["C18"] = ("stateless model checking of the real code: fault-site enumeration x delay-bounded schedule enumeration, with a liveness probe submission",
     "Every user-code call site (callable, map/error/flat_map fn incl. non-future return, poll fn, cancel fn, should_retry, sleep_time, count callable, done-callback) raising at call 1, 2 or every call, on each layer and five stacks, optionally with a concurrent cancel, followed by a probe submission; plus cancel() placed at the instant a retry becomes due: every schedule to d<=1 (faults) / d<=2 (cancel races) is executed; oracles: futures that did not flow through the faulty call keep their reference outcome, the fault is the owner's outcome or is logged, the probe is served, no library thread dies, nothing escapes a Future method or submit(), no InvalidStateError/assertion is logged as an error.",
     "DESIGN.md section 6 C18")
+CLAIMS["C02"] = ("stateless model checking of the real code: delay-bounded schedule enumeration of concurrent Future-API histories with a protocol monitor",
+    "For 17 future-producing entry points (every executor layer, flat-mapped inner stage, f_nocancel, f_proxy, f_map, f_flat_map, f_timeout, f_zip, f_and, f_or, f_sequence, f_apply), three ways the underlying work ends (value, exception, cancel of the inner future) and four kinds of blocked caller (result, exception, wait, as_completed), a completer, 0-2 cancellers (two cancel() each), a racing add_done_callback and the waiter are interleaved to d<=1 (all) / d<=2 (core); monitor: outcome set once and never changes, cancel() returns bool / True is sticky / False after normal finish, every callback exactly once with done() true, every waiter released by every kind of completion, no method raises.",
+    "DESIGN.md section 6 C02")
 NOT_YET = {}
 
 props = [json.loads(l) for l in open(os.path.join(HERE, "properties.jsonl"))]
